@@ -8,6 +8,7 @@ import (
 
 	"github.com/cosmos72/gomacro/fast"
 
+	"verif/harness/conc"
 	"verif/harness/gobatch"
 	"verif/harness/vlib"
 )
@@ -28,10 +29,10 @@ func TestMain(m *testing.M) {
 
 func known(p gobatch.Program, got, want gobatch.Result) string { return "" }
 
-func TestInterop(t *testing.T) {
-	gobatch.Run(t, gobatch.Config{Rec: rec, Name: "c11", N: rec.Scale(250, 2500), Gen: Generate, Known: known})
+func cfg() gobatch.Config {
+	return gobatch.Config{Rec: rec, Name: "c11", N: rec.Scale(250, 2500), Gen: Generate, Known: known, Interp: conc.Run(2, 5)}
 }
 
-func TestReplays(t *testing.T) {
-	rec.RunReplays(t, gobatch.Replayer(known))
-}
+func TestInterop(t *testing.T) { gobatch.Run(t, cfg()) }
+
+func TestReplays(t *testing.T) { rec.RunReplays(t, gobatch.ReplayerWith(cfg())) }
